@@ -1,7 +1,7 @@
-(* Obligation C10/half_multiplicative_step_in_range.  Statement as printed by Coq from Inferno.C10.KernelProofs; proof by reference.
+(* Obligation C10/half_multiplicative_step_in_range.  Statement as printed by Coq from Inferno.C10.KernelRange; proof by reference.
    This file contains nothing else, so the statement cannot be weakened quietly. *)
 From Coq Require Import List ZArith Bool Arith Reals Lra Lia Permutation.
-From Inferno Require Import Base.Num Base.NumR Gen.Bounding C10.Updater C10.KernelProofs C10.AccProofs C10.OrderProofs C10.WorldProofs C10.UpdateProofs C10.InterleaveProofs.
+From Inferno Require Import Base.Num Base.NumR Gen.Bounding C10.Updater C10.KernelAlgebra C10.KernelRange.
 Import ListNotations.
 Open Scope R_scope.
 Theorem half_multiplicative_step_in_range : forall x p n mx mn : R,
@@ -10,5 +10,5 @@ Theorem half_multiplicative_step_in_range : forall x p n mx mn : R,
   0 <= n <= 1 ->
   mn <= x + (bound_upper_multiplicative RN x p mx - bound_lower_multiplicative RN x n mn) <=
   mx.
-Proof. exact (@Inferno.C10.KernelProofs.half_multiplicative_step_in_range). Qed.
+Proof. exact (@Inferno.C10.KernelRange.half_multiplicative_step_in_range). Qed.
 Print Assumptions half_multiplicative_step_in_range.
